@@ -115,7 +115,7 @@ def check_message(err, d):
     lead = shown.startswith('... ')
     core = shown[4:] if lead else shown
     core = core[:-4] if core.endswith(' ...') else core
-    offs = [m.start() for m in re.finditer(re.escape(core), line)] if core else []
+    offs = [i for i in range(len(line) - len(core) + 1) if line.startswith(core, i)] if core else []       # (all occurrences, overlapping ones too)
     rel = caret - (4 if lead else 0)
     if not any(off + rel == col - 1 for off in offs) or not core:
         raise Violation('elided line: caret (offset %d in window %r...) does not map back to column %d' % (rel, core[:30], col), d, 'caret-elided-line')
@@ -239,7 +239,8 @@ SOUP_STARTS = ['if', 'elif', 'else:', 'endif', 'while', 'endwhile', 'for', 'endf
                'for a in b:', 'function ff():', 'function ff(a, b...):', 'else', 'elif x:', "include 'a.bare'", 'include <b.bare>', 'jump lbl',
                'jumpif (x) lbl', 'return x', 'endif', 'endwhile', 'endfor', 'endfunction']
 SOUP_TOKENS = ['x', 'yy', '1', '2.5', "'s'", '"d"', '+', '-', '*', '**', '&&', '||', '==', '<', '!', '(', ')', ',', ':', '\\', '#', "'", '"', '@', '$', '=', 'in',
-               'foo(', 'if(', '[a b]', '[', ']', '.', '...', 'true', 'null', '...):', '):', 'a,b']
+               'foo(', 'if(', '[a b]', '[', ']', '.', '...', 'true', 'null', '...):', '):', 'a,b',
+               '\u00b2', '10\u00b2', '\u2460', '\u0663', '1\u00b3\u0661', '\u2167', '1.', '.5', '1e', '0x1F', '1_000']
 
 
 def gen_soup(rnd, size):
